@@ -61,6 +61,11 @@ class Ctx:
 
 
 def _container(vals, form, is_date=False):
+    if form.startswith("array64"):
+        # numpy date arrays of a given resolution (naive stamps only: numpy dates carry no zone)
+        if is_date and all(pd.Timestamp(v).tzinfo is None for v in vals):
+            return np.array([np.datetime64(pd.Timestamp(v)) for v in vals]).astype("datetime64[%s]" % form.split(":")[1])
+        form = "array"
     if form == "array":
         if is_date:
             return np.array([pd.Timestamp(v) for v in vals], dtype=object)
@@ -83,7 +88,7 @@ def val(v, ctx, naive=False):
     d = {"start": _container([ctx.stamp(r[0], naive) for r in iv], form, True)}
     if not v.get("implicit_end", False):
         d["end"] = _container([ctx.stamp(r[1], naive) for r in iv], form, True)
-    d["values"] = _container([r[2] for r in iv], "array" if form == "array" else "list")
+    d["values"] = _container([r[2] for r in iv], "array" if form.startswith("array") else "list")
     return d
 
 
@@ -92,7 +97,7 @@ def take(v, ctx, naive=False, form="list"):
         return None
     return {"start": _container([ctx.stamp(r[0], naive) for r in v], form, True),
             "end": _container([ctx.stamp(r[1], naive) for r in v], form, True),
-            "values": _container([r[2] for r in v], "array" if form in ("array", "dtindex") else "list")}
+            "values": _container([r[2] for r in v], "array" if (form == "dtindex" or form.startswith("array")) else "list")}
 
 
 def _common(a, ctx):
